@@ -131,6 +131,21 @@ pub fn eval(c: &MCase) -> Eval {
     if !r.ok {
         viol.push(Violation { stop: true, prop: "HARNESS", clause: "boot", step: 0, msg: r.err.clone() });
     }
+    // The batch record the contract has just written must have the released storage format: batches
+    // written before an upgrade are read back by the upgraded code (no migration rewrites them), so a
+    // drift of the encoding strands every existing batch (C06: it can no longer be submitted or received;
+    // C18: a value-bearing record is not preserved).
+    {
+        let mut k = ns_key("batches");
+        k.extend(1u64.to_be_bytes());
+        let written: Value = w.st.staking.map.get(&k).and_then(|v| serde_json::from_slice(v).ok()).unwrap_or(Value::Null);
+        let golden = json!({"id": 1, "batch_total_liquid_stake": "0", "expected_native_unstaked": null, "received_native_unstaked": null, "liquid_unstake_requests": null, "unstake_requests_count": 0, "next_batch_action_time": 1_700_000_000u64 + 86_400, "status": "Pending"});
+        if r.ok && written != golden {
+            let m = format!("a fresh pending batch is stored as {} but the released format is {}: batches written before an upgrade become unreadable", written, golden);
+            viol.push(Violation { stop: true, prop: "C18", clause: "batch_storage_format_stable", step: 0, msg: m.clone() });
+            viol.push(Violation { stop: true, prop: "C06", clause: "batch_storage_format_stable", step: 0, msg: m });
+        }
+    }
     let path = c.path % 3;
     // legacy configuration layouts
     let monitors_opt = if rng.chance(1, 4) { Value::Null } else { json!([addr20(pp, "m0"), addr20(pp, "m1")]) };
